@@ -131,9 +131,6 @@ KNOWN_SITES = {
     "K-exasol-table-keyword@C10": lambda exc, site, msg, case: exc == "IndexError"
     and _site(site, "sqllineage/core/parser/sqlfluff/utils.py", "extract_as_and_target_segment"),
     # the deprecated sqlparse-based analyzer
-    "K-sqlparse-swap-partition@C10": lambda exc, site, msg, case: case.get("dialect") == "non-validating"
-    and exc in ("IndexError", "ValueError", "AttributeError", "TypeError")
-    and _site(site, "sqllineage/core/parser/sqlparse/handlers/swap_partition.py", "handle"),
     "K-sqlparse-merge@C10": lambda exc, site, msg, case: case.get("dialect") == "non-validating"
     and exc in ("IndexError", "AttributeError", "TypeError")
     and _site(site, "sqllineage/core/parser/sqlparse/analyzer.py", "_extract_from_dml_merge"),
@@ -398,7 +395,7 @@ ZOO = [
     ("exasol", "IMPORT INTO t FROM CSV AT 'http://h/' FILE 'x.csv'"), ("exasol", "EXPORT (SELECT a FROM s) INTO CSV AT 'http://h/' FILE 'o.csv'"), ("exasol", "SELECT * FROM TABLE t"),
     ("exasol", "SELECT a FROM table(generator()) v"), ("exasol", "MERGE INTO t USING s ON t.k = s.k WHEN MATCHED THEN UPDATE SET a = s.a WHERE s.a > 1"),
     ("vertica", "COPY t FROM '/tmp/x.csv' DELIMITER ','"), ("vertica", "INSERT /*+ DIRECT */ INTO t SELECT a FROM s"), ("vertica", "CREATE TABLE t AS SELECT a FROM s SEGMENTED BY hash(a) ALL NODES"),
-    ("vertica", "SELECT swap_partitions_between_tables(a, b, c, d) FROM t"), ("vertica", "CREATE PROJECTION p AS SELECT a FROM s ORDER BY a"),
+    ("vertica", "SELECT swap_partitions_between_tables(a, b, c, d) FROM t"), ("ansi", "SELECT (SELECT swap_partitions_between_tables(a, b, c) FROM t) AS x FROM u"), ("vertica", "SELECT swap_partitions_between_tables('a', f(x)) FROM t"), ("vertica", "CREATE PROJECTION p AS SELECT a FROM s ORDER BY a"),
     ("sqlite", "INSERT OR REPLACE INTO t SELECT a FROM s"), ("sqlite", "INSERT INTO t SELECT a FROM s WHERE true ON CONFLICT (a) DO NOTHING"), ("sqlite", "CREATE TABLE t AS SELECT a FROM s INDEXED BY i1"),
     ("sqlite", "REPLACE INTO t (a) SELECT a FROM s"), ("sqlite", "CREATE TEMP TABLE t AS SELECT a FROM s"), ("sqlite", "UPDATE OR IGNORE t SET a = (SELECT a FROM s)"),
     ("db2", "CREATE TABLE t AS (SELECT a FROM s) WITH DATA"), ("db2", "SELECT a FROM s FETCH FIRST 5 ROWS ONLY"), ("db2", "INSERT INTO t SELECT a FROM s WITH UR"), ("db2", "SELECT a FROM FINAL TABLE (INSERT INTO t SELECT a FROM s)"),
